@@ -199,6 +199,24 @@ def render_body(f, ind, is_method_with_super=False):
             L.append(f"{j}    {kw} _op[1] == \"{n}\": _v = {n}")
         L.append(f"{j}    else: _v = None")
         L.append(f"{j}    _R((\"R\", _c, _v)); return _v")
+    if names and body != "coro":
+        # in-place mutation of the container currently bound to a parameter (exact list / dict / set only); the state before
+        # the mutation is journaled as a shallow copy made by the type's own C-level constructor
+        L.append(f"{j}elif _k == 19:")
+        for n_i, n in enumerate(names):
+            kw = "if" if n_i == 0 else "elif"
+            L.append(f"{j}    {kw} _op[1] == \"{n}\": _t = {n}")
+        L.append(f"{j}    else: _t = None")
+        L.append(f"{j}    _ty = type(_t)")
+        L.append(f"{j}    if _ty is list:")
+        L.append(f"{j}        _R((\"MU\", _c, _t, list(_t)))")
+        L.append(f"{j}        if _op[4] and _t: _t[0] = _op[2]")
+        L.append(f"{j}        else: _t.append(_op[2])")
+        L.append(f"{j}    elif _ty is dict:")
+        L.append(f"{j}        _R((\"MU\", _c, _t, dict(_t)))")
+        L.append(f"{j}        if _op[4] and _t: _t[next(iter(_t))] = _op[2]")
+        L.append(f"{j}        else: _t[_op[3]] = _op[2]")
+        L.append(f"{j}    elif _ty is set: _R((\"MU\", _c, _t, set(_t))); _t.add(_op[3])")
     if f["fid"] == 0:
         L.append(f"{j}elif _k == 16:")
         L.append(f"{j}    _op[1]()")
@@ -406,6 +424,14 @@ def load(spec, root=None):
         code = compile(src, fn, "exec", dont_inherit=True)
         if twin_src:
             mod.__dict__["_OFF"] = TWIN_OFF
+        if spec.get("global_tw"):
+            # C03: tripwire objects bound to module globals *before* the module body runs, so that a scan of the module's globals
+            # (function lookup for static methods / unresolvable functions) meets them before it meets the classes
+            from . import tripwires
+
+            mk = tripwires.factory([])
+            for gi, kind in enumerate(spec["global_tw"]):
+                mod.__dict__["zz_tw%d" % gi] = mk(["tw", kind, 8000 + gi])
         exec(code, mod.__dict__)
         lp.modules[m] = mod
         lp.sources[m] = src
